@@ -249,6 +249,13 @@ func (b *Bank) Op(id uint64) (op OpSpec) {
 	op.Budget = budgets[r.Intn(len(budgets))]
 	op.Foreign = r.Chance(1, 3)
 	roll := r.Intn(100)
+	if id >= SysRejected && id < PanicBase && b.Prof != "C13" && len(b.rej) > 0 {
+		// a call on a rejected definition, named by the id (C13 has its own, richer branch below)
+		k := int((id - SysRejected) % uint64(3*len(b.rej)))
+		op.Type, op.Kind = b.rej[k/3].Name, []string{"size", "enc", "dec"}[k%3]
+		op.Buf, op.Fault = "generous", "none"
+		return op
+	}
 	if isPanicOp(id) {
 		if pan := b.C.Panicky(); len(pan) > 0 {
 			k := int(id - PanicBase)
@@ -280,6 +287,9 @@ func (b *Bank) Op(id uint64) (op OpSpec) {
 		}
 	case "C05":
 		op.Type = b.pick(id, r).Name
+		if isFocus(id) && (id-FocusBase)%FocusVariants < 2 {
+			roll = 97 // variants 0 and 1 of a definition: healthy messages
+		}
 		switch {
 		case roll < 35:
 			op.Kind = "decenum" // every prefix and every single-byte corruption of one message
@@ -607,12 +617,34 @@ func Derive(prof string, c *model.Corpus, seed uint64, run int, bankLimit uint64
 			}
 		}
 	}
+	// C05: a quarter of the histories contain a rejected registration between healthy decodes of a definition that
+	// shares nested definitions with the rejected one - whatever the failed registration undoes must not take
+	// anything away from definitions that are in use ("every accepted destination type", whatever happened before)
+	var interlude []uint64
+	if prof == "C05" && len(b.byst) > 0 && r.Chance(1, 4) {
+		by := b.byst[r.Intn(len(b.byst))]
+		var has []int
+		for i, s := range b.rej {
+			if len(s.Name) > 3 && s.Name[:3] == "Has" {
+				has = append(has, i)
+			}
+		}
+		for i, s := range b.valid {
+			if s == by && len(has) > 0 {
+				f := FocusBase + uint64(i)*FocusVariants
+				rj := SysRejected + uint64(3*has[r.Intn(len(has))]+1) // an encode: C05 judges decodes, and only on accepted types
+				interlude = []uint64{f, f + 1, rj, f, f + 1}
+			}
+		}
+	}
 	// history worlds: operations dealt to tasks; sometimes an operation is repeated later in the history
 	// (same arguments, different predecessors) and events are sprinkled in.
 	var recent []uint64
 	for i := 0; i < nops; i++ {
 		st := Step{Slot: i, Task: r.Intn(rs.Tasks)}
 		switch {
+		case len(interlude) > 0 && i >= nops/3 && i < nops/3+len(interlude):
+			st.Op = interlude[i-nops/3]
 		case soak && (i == nops/2 || i == nops-1):
 			st.Op = WrapBase + uint64(r.Intn(2*len(b.reqs)))
 		case len(recent) > 0 && r.Chance(1, 5):
